@@ -69,6 +69,15 @@ func genC21Struct(t *rapid.T, camel bool, depth int, used map[string]bool) *gen.
 			s.Fields = append(s.Fields, gen.FieldSpec{Name: "EmbA", Embedded: true, Type: embASpec()})
 			continue
 		}
+		// two / three levels of embedding (Emb1 embeds Emb2 embeds Emb3)
+		if depth == 0 && rapid.IntRange(0, 7).Draw(t, "emb3") == 0 && !used["embp"] {
+			for _, n := range []string{"embp", "embq", "embr", "embm", "embn"} {
+				used[n] = true
+			}
+			en := rapid.SampledFrom([]string{"Emb1", "Emb1", "Emb2"}).Draw(t, "embdeep")
+			s.Fields = append(s.Fields, gen.FieldSpec{Name: en, Embedded: true, Type: gen.NamedSpec(en)})
+			continue
+		}
 		if depth == 0 && rapid.IntRange(0, 6).Draw(t, "nested") == 0 {
 			f.Type = genC21Struct(t, camel, depth+1, map[string]bool{})
 		} else {
